@@ -135,6 +135,20 @@ impl MonotonicTimestampGenerator {
     }
 }
 
+/// Verification hooks: access to the private `last` cell, no logic.
+#[cfg(feature = "scylla-verif")]
+impl MonotonicTimestampGenerator {
+    #[doc(hidden)]
+    pub fn verif_last(&self) -> &AtomicI64 {
+        &self.last
+    }
+
+    #[doc(hidden)]
+    pub fn verif_compute_next(&self, last: i64) -> i64 {
+        self.compute_next(last)
+    }
+}
+
 impl Default for MonotonicTimestampGenerator {
     fn default() -> Self {
         Self::new()
